@@ -2,7 +2,7 @@
    independence of the administrative handlers from both flags, idempotence and restoration. *)
 From Cctp Require Import Lib.Bytes Lib.SMap Lib.Text Lib.Bech32 Lib.Hex Lib.Keccak.
 From Cctp Require Import Model.Codec Model.State Model.Attest Model.Ledger Model.Handlers Model.Chain.
-From Cctp Require Import Spec.Roles Proofs.MonadFacts Proofs.FlowFacts Proofs.CallFacts Proofs.AdminFacts.
+From Cctp Require Import Spec.Roles Proofs.MonadFacts Proofs.FrameFacts Proofs.FlowFacts Proofs.CallFacts Proofs.AdminFacts.
 
 Definition with_bm (v : option bool) (h : hstate) : hstate :=
   {| h_st := set_bm_paused v (h_st h); h_lg := h_lg h; h_plan := h_plan h; h_ev := h_ev h; h_dc := h_dc h |}.
@@ -106,5 +106,47 @@ Section Pause.
   Proof.
     intros T. destruct t; try discriminate T; unfold deliver; cbn [handler]; unfold h_set_bm, h_set_sr; unfold_m; red_m; red_store.
     all: repeat (crunch1; red_m; red_store); try reflexivity; try congruence.
+  Qed.
+  (* ---------- a paused period: over a history that contains no pause/unpause of the flag ---------- *)
+  (* the flows of a history that succeeded *)
+  Fixpoint ok_flows (c : chain) (h : list step) : nat :=
+    match h with
+    | [] => 0
+    | s :: h' => let r := deliver e c (fst s) (snd s) in
+                 (if is_ok r && is_flow (snd s) then 1 else 0) + ok_flows (r_chain r) h'
+    end.
+  Fixpoint ok_bm_named (c : chain) (h : list step) : nat :=
+    match h with
+    | [] => 0
+    | s :: h' => let r := deliver e c (fst s) (snd s) in
+                 (if is_ok r && bm_named (snd s) then 1 else 0) + ok_bm_named (r_chain r) h'
+    end.
+
+  Lemma sr_paused_period h : forall c, flag_on (sr_paused (c_st c)) = true ->
+    (forall s, In s h -> touches_sr (snd s) = false) ->
+    sr_paused (c_st (run e c h)) = sr_paused (c_st c) /\ ok_flows c h = 0.
+  Proof.
+    induction h as [|s h IH]; intros c P NT; cbn [run fold_left ok_flows]; [auto|].
+    fold (run e (run_step e c s) h). unfold run_step. set (r := deliver e c (fst s) (snd s)).
+    assert (sr_paused (c_st (r_chain r)) = sr_paused (c_st c)) as Fr.
+    { symmetry. apply (deliver_frame sr_paused). intros; eapply frame_sr; eauto. apply NT. now left. }
+    destruct (IH (r_chain r)) as [E Z]; [now rewrite Fr|intros; apply NT; now right|].
+    split; [now rewrite E|]. rewrite Z.
+    destruct (is_flow (snd s)) eqn:F; [|now rewrite andb_false_r].
+    subst r. now rewrite (sr_blocks c (fst s) (snd s) F P).
+  Qed.
+
+  Lemma bm_paused_period h : forall c, flag_on (bm_paused (c_st c)) = true ->
+    (forall s, In s h -> touches_bm (snd s) = false) ->
+    bm_paused (c_st (run e c h)) = bm_paused (c_st c) /\ ok_bm_named c h = 0.
+  Proof.
+    induction h as [|s h IH]; intros c P NT; cbn [run fold_left ok_bm_named]; [auto|].
+    fold (run e (run_step e c s) h). unfold run_step. set (r := deliver e c (fst s) (snd s)).
+    assert (bm_paused (c_st (r_chain r)) = bm_paused (c_st c)) as Fr.
+    { symmetry. apply (deliver_frame bm_paused). intros; eapply frame_bm; eauto. apply NT. now left. }
+    destruct (IH (r_chain r)) as [E Z]; [now rewrite Fr|intros; apply NT; now right|].
+    split; [now rewrite E|]. rewrite Z.
+    destruct (bm_named (snd s)) eqn:F; [|now rewrite andb_false_r].
+    subst r. now rewrite (bm_blocks c (fst s) (snd s) F P).
   Qed.
 End Pause.
